@@ -120,6 +120,34 @@ func c07(c *evid.Ctx) {
 				}
 			}
 			if found < M {
+				// A query that comes back before anything was injected for it was completed by
+				// something that cannot be its reply.
+				early := false
+				for _, q := range qs {
+					if q.t != "" {
+						continue
+					}
+					select {
+					case res := <-q.done:
+						early = true
+						var got [20]byte
+						if res.Reply.R != nil {
+							got = res.Reply.R.ID
+						}
+						if res.Err == nil {
+							c.Violation("query-completed-by-non-matching-datagram:before-any-reply-to-it-existed", fmt.Sprintf("query to %v returned y=%q marker %x before a reply to it had been injected (and before it reached the socket)", q.dest, res.Reply.Y, got[:4]), nil)
+						} else {
+							c.Inconclusive(fmt.Sprintf("query to %v failed before it was sent: %v", q.dest, res.Err))
+						}
+					default:
+					}
+				}
+				if early {
+					for _, q := range qs {
+						q.cancel()
+					}
+					return
+				}
 				if time.Now().After(deadline) {
 					c.Inconclusive(fmt.Sprintf("round %d: only %d of %d queries reached the socket", round, found, M))
 					return
